@@ -64,6 +64,29 @@ class OnOff(Harness):
         if isinstance(out, Raised): return [(f"does not raise ({out.type}: {out.msg[:80]})", T(False))]
         return same_frames(out["on"][0], out["off"][0], self.helper)
 
+class SameCall(Harness):
+    """'whatever aggregations were run before it, in the same call': a helper, then an order-sensitive helper on the
+    same column within one aggregate() call (a kernel that reorders or overwrites the group slices it is handed
+    changes what the next helper sees)"""
+    prop = "C08"; opname = "agg_numba"
+    def __init__(self, first, then, kind, maxn):
+        self.first = first; self.then = then; self.kind = kind; self.maxn = maxn
+        self.name = f"C08.samecall.{first}+{then}.{kind}.n{maxn}"
+        self.bounds = {"rows": f"1..{maxn}", "dtype": KIND_DTYPE[kind], "group layouts": "all layouts of <= 3 groups",
+                       "call": f"aggregate(y={first}(x), y2={then}(x))", "real replay": "fresh interpreter per witness"}
+        self.symbolic = ["all cells", "nth index", "q"]; self.choice_dims = ["layout", "drop_na of the first helper"]
+        self.goals = [f"aggregate.py:{first}", f"aggregate.py:{then}", "aggregate.py:use_numba"]
+    def build(self, ctx):
+        n = choice("n", range(1, self.maxn + 1))
+        lay = choice("layout", LAYOUTS[n])
+        st = step_input(ctx, self.first, self.kind, n, lay)
+        st["then"] = {"helper": self.then, "drop_na": None, "ddof": None}
+        if self.then == "nth": st["then"]["index"] = SymI64(symx.sym_int_range("index2", -(n + 1), n + 1))
+        return {"steps": [st]}
+    def spec(self, inp, out):
+        if isinstance(out, Raised): return [(f"does not raise ({out.type}: {out.msg[:80]})", T(False))]
+        return same_frames(out["on"][0], out["off"][0], f"{self.first} then {self.then}")
+
 class Order(Harness):
     """history clause, observed only: several helpers first used in a given order inside one fresh process"""
     prop = "C08"; opname = "agg_numba"
@@ -121,6 +144,14 @@ def harnesses(tier):
         for h in allh:
             for k in [k for k in KINDS[h] if k in NUMBA_KINDS]:
                 hs.append(OnOff(h, k, 3))
+    if q:
+        for a, b in (("count_unique", "first"), ("median", "last"), ("mode", "first")):
+            hs.append(SameCall(a, b, "f", 2))
+    else:
+        for a in allh:
+            if "f" in KINDS[a]: hs.append(SameCall(a, "first", "f", 3))
+        for a, b, k in (("count_unique", "last", "i"), ("mode", "nth", "i"), ("quantile", "last", "f"), ("median", "nth", "D"), ("count_unique", "first", "D"), ("min", "last", "b")):
+            hs.append(SameCall(a, b, k, 3))
     hs.append(Order(2))
     if not q: hs.append(Order(3))
     return hs
